@@ -24,6 +24,28 @@ Theorem C07_accepting : forall cfg s, ready_on_error cfg = false -> reachable cf
 Proof. exact c17_connect_succeeds. Qed.
 Print Assumptions C07_accepting.
 
+(* descriptor exhaustion at accept time: with the retry (current tree) Run stays in its
+   loop, the socket stays bound and connection attempts keep being accepted *)
+Theorem C07_accept_errors_survived : forall cfg s,
+  accept_retry cfg = true -> ready_on_error cfg = false -> reachable cfg s -> alive s = true ->
+  ready s = true -> stops s = [] ->
+  step cfg s EConnect <> None /\ in_loop (run s) = true /\ lst s = Listening.
+Proof. exact c07_accepting_despite_accept_errors. Qed.
+Print Assumptions C07_accept_errors_survived.
+
+Theorem C07_accept_error_step : forall cfg s,
+  accept_retry cfg = true -> run s = RAcceptWait -> lst s = Listening -> accept_err s = true ->
+  exists s', run_step cfg s = Some s' /\ run s' = RTop /\ nextid s' = pred (nextid s) /\ conns s' = conns s /\
+             accept_err s' = false /\ accept_failed s' = accept_failed s /\ ready s' = ready s /\ lst s' = Listening.
+Proof. exact c07_accept_error_step. Qed.
+Print Assumptions C07_accept_error_step.
+
+Theorem C07_accept_error_pinned_refuted :
+  exists s, run_labels pinned_cfg init [ECallRun true true; LRun; LRun; EAcceptErr; LRun] = Some s /\
+            run s = RRet true /\ ready s = true /\ lst s = Listening /\ accept_failed s = true.
+Proof. exact accept_error_pinned_refuted. Qed.
+Print Assumptions C07_accept_error_pinned_refuted.
+
 Theorem C07_pinned_refuted : exists s, run_labels pinned_cfg init
               [ECallRun true true; LRun; LRun; EConnect; LRun; LRun; LConn 0; LConn 0;
                ESend 0 (IReq KNormal [HPanic]); LConn 0; LHandler 0 1] = Some s /\ alive s = false.
